@@ -325,6 +325,7 @@ class TypeItem:
     rules: List[Rule] = field(default_factory=list)
     attrs: str = ''
     drop_fields: List[str] = field(default_factory=list)
+    known_fields: Optional[List[str]] = None   # frame guard: the state the contracts of this type talk about; any other field => undecided
 
 
 @dataclass
@@ -664,6 +665,11 @@ def build_unit(unit: Unit, outdir, repo=None):
             t, n = _apply_rule(r, t, log, 'type')
             if isinstance(r.expect, int) and r in item.rules and n != r.expect:
                 raise ExtractError('%s %s: rule %s fired %d times, expected %s' % (item.kind, item.name, r.id, n, r.expect))
+        if item.known_fields is not None:
+            have = re.findall(r'(?m)^[ \t]*(?:pub(?:\([a-z]+\))? )?(\w+)\s*:', rl.mask(t))
+            extra = [f for f in have if f not in item.known_fields]
+            if extra:
+                raise ExtractError('%s %s has state the contracts do not talk about (field %s): what the functions do to it cannot be judged against them' % (item.kind, item.name, ', '.join(extra)))
         # widen visibility so spec functions may mention the fields
         if item.kind == 'struct':
             t = re.sub(r'(?m)^([ \t]+)(?!pub\b)(\w+: )', r'\1pub \2', t)
